@@ -39,7 +39,7 @@ CONSTANTS
   GroupIncs,     \* label sets usable in group_left()/group_right(); {} switches grouping off
   IgnEmpty,      \* BOOLEAN: also generate `ignoring()` with an empty list
   DupLabels,     \* BOOLEAN: also generate by()/without() lists that repeat a label
-  Fixes,         \* which repairs proposed under /verif/fixes the analysed tree contains: subset of {"F6", "OnForced", "EmptyEq", "StaticVal"}
+  Fixes,         \* which repairs proposed under /verif/fixes the analysed tree contains: subset of {"F6", "OnForced", "EmptyEq", "StaticVal", "LrepEmpty"}
   DBSeries,      \* bound on the number of series per metric in a database
   DBA, DBB, DBC, \* label values (besides absent) stored series may carry for a, b, c
   DBVals         \* sample values of stored series
@@ -202,6 +202,8 @@ parsePromQLFunc(s, e) ==
          LET a0 == [s EXCEPT !.ret = "vector", !.fixed = TRUE, !.inc = {}, !.gua = {}]
              a == IF SV THEN [a0 EXCEPT !.always = FALSE, !.known = FALSE, !.dead = FALSE, !.dkind = "", !.dpath = "none"] ELSE a0
          IN guaranteeLabel(includeLabel(a, s.seq), s.seq)
+    \* (fix LrepEmpty: label_replace with an empty replacement removes the label, nothing is guaranteed)
+    [] e.f = "lrep" /\ e.repl = "" /\ "LrepEmpty" \in Fixes -> [s EXCEPT !.ret = "vector"]
     [] e.f \in {"lrep", "ljoin"} -> guaranteeLabel([s EXCEPT !.ret = "vector"], {e.dst})
     [] e.f = "scalar" ->
          LET a == [s EXCEPT !.ret = "scalar", !.inc = {}, !.gua = {}, !.fixed = TRUE, !.always = TRUE]
